@@ -310,7 +310,23 @@ class Canon:
         if isinstance(e, ast.Call) and isinstance(e.func, ast.Name) and e.func.id == "dict" and not e.args and all(k.arg for k in e.keywords):
             return ast.Dict([ast.Constant(k.arg) for k in e.keywords], [k.value for k in e.keywords])
         if isinstance(e, ast.Call) and isinstance(e.func, ast.Name) and e.func.id == "list" and len(e.args) == 1 and isinstance(e.args[0], ast.GeneratorExp):
-            return ast.ListComp(e.args[0].elt, e.args[0].generators)
+            return self._fold(ast.ListComp(e.args[0].elt, e.args[0].generators))
+        if isinstance(e, ast.ListComp) and len(e.generators) == 1 and not e.generators[0].ifs and isinstance(e.generators[0].target, ast.Name):
+            g = e.generators[0]
+            items = None
+            if isinstance(g.iter, ast.Call) and isinstance(g.iter.func, ast.Name) and g.iter.func.id == "range" and len(g.iter.args) == 1 and isinstance(g.iter.args[0], ast.Constant) \
+                    and isinstance(g.iter.args[0].value, int) and 0 < g.iter.args[0].value <= 8:
+                items = [ast.Constant(i) for i in range(g.iter.args[0].value)]
+            elif isinstance(g.iter, (ast.Tuple, ast.List)) and 0 < len(g.iter.elts) <= 8 and all(isinstance(x, ast.Constant) for x in g.iter.elts):
+                items = list(g.iter.elts)
+            if items is not None:
+                return ast.List([self._fold(_replace_name(e.elt, g.target.id, it_)) for it_ in items], ast.Load())
+        if isinstance(e, ast.BinOp) and isinstance(e.op, ast.Mod) and isinstance(e.left, ast.Constant) and isinstance(e.left.value, str) \
+                and (isinstance(e.right, ast.Constant) or (isinstance(e.right, ast.Tuple) and all(isinstance(x, ast.Constant) for x in e.right.elts))):
+            try:
+                return ast.Constant(e.left.value % (e.right.value if isinstance(e.right, ast.Constant) else tuple(x.value for x in e.right.elts)))
+            except Exception:
+                pass
         if isinstance(e, ast.Subscript) and isinstance(e.value, ast.Constant) and isinstance(e.value.value, (bytes, str)) and isinstance(e.slice, ast.Constant) and isinstance(e.slice.value, int):
             try:
                 return ast.Constant(e.value.value[e.slice.value])
@@ -431,10 +447,28 @@ def _cmp_atoms(canon, left, op, right, leaf):
         import operator
         fn = {ast.Eq: operator.eq, ast.NotEq: operator.ne, ast.Lt: operator.lt, ast.Gt: operator.gt, ast.LtE: operator.le, ast.GtE: operator.ge}[type(op)]
         return bool(fn(left.value, right.value))
+    # two integer expressions: compare their difference (sign-normalised linear form) with 0
+    if isinstance(op, (ast.Lt, ast.Gt, ast.LtE, ast.GtE)) and not isinstance(left, ast.Constant) and not isinstance(right, ast.Constant) \
+            and canon.is_int(left) and canon.is_int(right) and not getattr(canon, "_in_diff", False):
+        l_ = canon._lin(ast.BinOp(left, ast.Sub(), right), True)
+        if l_ is not None and l_[0]:
+            terms, const = l_
+            first = sorted(terms)[0]
+            o = type(op)
+            if terms[first][0] < 0:
+                terms = {k: [-c, t] for k, (c, t) in terms.items()}
+                const = -const
+                o = {ast.Lt: ast.Gt, ast.Gt: ast.Lt, ast.LtE: ast.GtE, ast.GtE: ast.LtE}[o]
+            d = canon._unlin(terms, 0)
+            canon._in_diff = True
+            try:
+                return _cmp_atoms(canon, d, o(), ast.Constant(-const), leaf)
+            finally:
+                canon._in_diff = False
     # integer expression against a constant: everything becomes `expr < K` (possibly negated)
     if isinstance(op, (ast.Lt, ast.Gt, ast.LtE, ast.GtE)):
         for x, k, flip in ((left, right, False), (right, left, True)):
-            if isinstance(k, ast.Constant) and isinstance(k.value, int) and not isinstance(k.value, bool) and not isinstance(x, ast.Constant) and canon.is_int(x):
+            if isinstance(k, ast.Constant) and isinstance(k.value, int) and not isinstance(k.value, bool) and not isinstance(x, ast.Constant) and (canon.is_int(x) or getattr(canon, "_in_diff", False)):
                 o = type(op)
                 if flip:
                     o = {ast.Lt: ast.Gt, ast.Gt: ast.Lt, ast.LtE: ast.GtE, ast.GtE: ast.LtE}[o]
@@ -1060,9 +1094,12 @@ class SymWalker:
                 self._effect("aug", st, reach, target=ast.Name(st.target.id, ast.Load()), op=st.op, value=v, before=copy.deepcopy(cur))
                 self._bind(st.target, self.canon.expr(ast.BinOp(copy.deepcopy(cur), st.op, v)))
             elif isinstance(st.target, ast.Attribute):
-                self._effect("augattr", st, reach, target=self.sub(st.target.value), attr=st.target.attr, op=st.op, value=v)
+                # T.a |= v  is  T.a = T.a | v
+                tv = self.sub(st.target.value)
+                self._effect("setattr", st, reach, target=tv, attr=st.target.attr, value=self.canon.expr(ast.BinOp(ast.Attribute(copy.deepcopy(tv), st.target.attr, ast.Load()), st.op, v)), aug=True)
             elif isinstance(st.target, ast.Subscript):
-                self._effect("augitem", st, reach, target=self.sub(st.target.value), key=self.sub(st.target.slice), op=st.op, value=v)
+                tv, kv = self.sub(st.target.value), self.sub(st.target.slice)
+                self._effect("setitem", st, reach, target=tv, key=kv, value=self.canon.expr(ast.BinOp(ast.Subscript(copy.deepcopy(tv), copy.deepcopy(kv), ast.Load()), st.op, v)), aug=True)
             return
         if isinstance(st, ast.Delete):
             for t in st.targets:
@@ -1230,6 +1267,23 @@ class Effect:
         if k == "yield":
             return "yield %s" % (norm(self.value) if self.value is not None else "")
         return k
+
+    def parts(self):
+        """the text as a list of AST / str pieces (so that locals can be renamed on the AST, never on keyword names)"""
+        k = self.kind
+        if k == "call":
+            return [self.call]
+        if k == "setattr":
+            return [self.target, ".%s = " % self.attr, self.value]
+        if k == "setitem":
+            return [self.target, "[", self.key, "] = ", self.value]
+        if k == "delitem":
+            return ["del ", self.target, "[", self.key, "]"]
+        if k == "delattr":
+            return ["del ", self.target, ".%s" % self.attr]
+        if k == "yield":
+            return ["yield ", self.value if self.value is not None else ""]
+        return [k]
 
     def __repr__(self):
         return "<%s %s>" % (self.kind, self.text()[:80])
@@ -1572,7 +1626,7 @@ def _rename_text(t, ren):
     import re
     if not ren:
         return t
-    return re.sub(r"(?<![A-Za-z_0-9.'\"])(%s)(?![A-Za-z_0-9'\"])" % "|".join(sorted(map(re.escape, ren), key=len, reverse=True)), lambda m: ren[m.group(1)], t)
+    return re.sub(r"(?<![A-Za-z_0-9.'\"])(%s)(?![A-Za-z_0-9'\"])(?!=[^=])" % "|".join(sorted(map(re.escape, ren), key=len, reverse=True)), lambda m: ren[m.group(1)], t)
 
 
 def _resort_atom(t, canon):
@@ -1685,7 +1739,7 @@ def summarize(func_node, canon, leaf=None, keep=()):
         elif e.kind == "aug":
             continue        # augmented assignment of a local: the value is in the store, not an effect
         else:
-            raw.append(("effect", [e.text()] + in_loop(e), e.reach))
+            raw.append(("effect", e.parts() + in_loop(e), e.reach))
     # rename surviving locals positionally
     pos = _first_store_pos(func_node)
     surviving = set()
